@@ -107,6 +107,7 @@ func drawStatic(t *rapid.T) staticCase {
 	}
 	c.graphDef = drawGraphDef(t, n, allClasses(), []int{wAll, wAll, wAll, wUnit, w01, w12, wPos}, 12)
 	c.Implicit = rapid.SampledFrom([]int{0, 0, 1, 2}).Draw(t, "implicit")
+	c.View = rapid.SampledFrom([]int{viewFull, viewFull, viewFull, viewWeightOnly, viewWeightOnly, viewPlain}).Draw(t, "view")
 	c.Srcs = rapid.SliceOfN(rapid.IntRange(0, n), 1, 3).Draw(t, "srcs")
 	np := rapid.IntRange(1, 3).Draw(t, "npairs")
 	for i := 0; i < np; i++ {
@@ -134,7 +135,7 @@ var exhIDs = []int64{7, -3, 1000000007, 2}
 // u->v (in row-major order of ordered pairs) is absent for digit 0 and has
 // weight ws[digit-1] otherwise (base len(ws)+1).
 func digraphCase(n int, ws []float64, i int, undir bool) staticCase {
-	c := staticCase{Implicit: 2, HF: i % len(hFactors), HSeed: uint64(i) * 0x9e3779b97f4a7c15}
+	c := staticCase{Implicit: 2, HF: i % len(hFactors), HSeed: uint64(i) * 0x9e3779b97f4a7c15, View2: i % 3}
 	c.Kind = kindSimple
 	c.Undir = undir
 	c.Cls = -1
@@ -163,9 +164,18 @@ func ipow(b, e int) int {
 	return r
 }
 
+// checkExh checks an enumerated graph as the container itself and, for two
+// thirds of the graphs, also through one of the restricted views.
 func checkExh(c staticCase) *vk.Failure {
 	vk.Sample("exhaustive", c)
-	return checkStatic(c)
+	if f := checkStatic(c); f != nil {
+		return f
+	}
+	if c.View2 != viewFull {
+		c.View = c.View2
+		return checkStatic(c)
+	}
+	return nil
 }
 
 // exhPart is one exhaustively enumerated family of graphs.
